@@ -118,10 +118,13 @@ func (p *BaseParty) hasEarlyMessages() bool {
 }
 
 func (p *BaseParty) lock() {
+	verifLockHook(p, "before-lock")
 	p.mtx.Lock()
+	verifLockHook(p, "locked")
 }
 
 func (p *BaseParty) unlock() {
+	verifLockHook(p, "before-unlock")
 	p.mtx.Unlock()
 }
 
